@@ -680,3 +680,26 @@ PROPS["C15"] = dict(
           "instructions (operands resolved; constants by truncated value), identical emulation results."),
     assumptions=[],
 )
+
+PROPS["C05"] = dict(
+    variant="asan",
+    sources=ENGINE + ["props/c05_compile.c"],
+    level="exploration",
+    technique="property-based robustness testing (rapidcheck) of orc_program_compile_full under ASan/UBSan: valid, API-mutated and over-limit programs x all registered targets x arbitrary flags, with a classification oracle on the result code and the program state",
+    level_text=("generated valid programs (up to 90 instructions), programs mutated by arbitrary construction-API calls (any opcode, prefix "
+                "combination, variable index 0..63, odd sizes/alignments, unknown names) and over-limit programs (up to 320 instructions, "
+                "tens of variables per class, tens of live temporaries) compiled for 1..3 of the 8 registered targets with default, zero, "
+                "masked, bit-flipped or fully random flags, in an ASan/UBSan build with a 20 s CPU limit per case. Sampled, not exhaustive"),
+    level_note=("trusted base: ASan/UBSan runtime, the classification rules in props/c05_compile.c; variable indices outside 0..63 and NULL "
+                "pointers are caller errors outside the API contract and are not generated; a fatal result for a well-typed program is "
+                "counted but not judged (the statement does not exclude it)"),
+    stages=[
+        dict(name="rc-compile", mode="rc", quick=dict(cases=40000, max_size=800, budget=50), thorough=dict(cases=3000000, max_size=1200, budget=1500)),
+    ],
+    rule=("a case is (program built as valid / mutated / over-limit, 1..3 (target, flags) pairs); every compile is an inner evaluation. "
+          "Non-trivial: every case (each reaches the compiler). Oracle: the call returns within the CPU limit with no sanitizer report or "
+          "abort; the result is a documented code; fatal => no executable code attached; successful => code object, exec pointer, listing "
+          "present and (valid integer program, x86 target, default flags) native run == emulation; other => code object "
+          "present, code_exec is the emulator/backup, orc_executor_run works (valid programs); orc_program_free works."),
+    assumptions=["ORC_CODE unset"],
+)
